@@ -47,7 +47,7 @@ def real_parse_stages(text):
     try:
         got = D.Dosini.parse_output({}, {'out': {'stages': text, 'data-in': 'f.txt:copy'}})
         return [int(x) for x in got['output']['out']['stages']]
-    except (AssertionError, ValueError):
+    except Exception:            # AssertionError / ValueError of the unchanged reader; any exception = not read
         return None
 
 
@@ -71,7 +71,7 @@ def real_parse_status(name):
         got = D.Dosini.parse_status({}, {name: {'stage-weight': '0.5'}})
         ks = list(got['status-report'])
         return int(ks[0]) if len(ks) == 1 else None
-    except (AssertionError, ValueError):
+    except Exception:            # AssertionError / ValueError of the unchanged reader; any exception = not read
         return None
 
 
